@@ -42,9 +42,10 @@ type Act struct {
 }
 
 type Stim struct {
-	T     int   `json:"t"`
-	Reqs  []Req `json:"reqs"`
-	Steps []Act `json:"steps"`
+	T      int   `json:"t"`
+	Reqs   []Req `json:"reqs"`
+	Steps  []Act `json:"steps"`
+	Hijack bool  `json:"hijack"` // the handler takes every request over (Hijack) and gives it back to the pool before it returns
 }
 
 type LogEv struct {
@@ -129,6 +130,10 @@ func runOne(st Stim) Trace {
 			if b == "piggy" {
 				_ = rw.SetResponse(codes.Content, message.TextPlain, bytes.NewReader([]byte(fmt.Sprintf("resp-q%d-run%d", info.q, k))),
 					message.Option{ID: message.MaxAge, Value: []byte{byte(info.q)}})
+			}
+			if st.Hijack { // what the application does with the message it was handed must not matter for de-duplication
+				req.Hijack()
+				rw.Conn().ReleaseMessage(req)
 			}
 		}
 	})
